@@ -76,7 +76,7 @@ def tu_text(seq):
 
 def build(root, placement, style, seq):
     shutil.rmtree(root, ignore_errors=True)
-    files = {"src/main.c": tu_text(seq), "src/sub/k.h": '#include "h.h"\nint k;\n', "inc1/g.h": '#include "h.h"\nint g;\n',
+    files = {"src/main.c": tu_text(seq), "src/aux.c": tu_text(seq), "src/sub/k.h": '#include "h.h"\nint k;\n', "inc1/g.h": '#include "h.h"\nint g;\n',
              "pre/pre.h": "#define FROM_PRE\nint pre;\n", "src/disp.h": "#include IMPL\nint disp;\n", "inc2/.keep.txt": "", "src/sub/.keep.txt": "",
              # bounded recursive inclusion: the header includes itself, every level under another macro state (valid C; depth 3)
              "src/rec.h": "\n".join(["#ifndef REC_L1", "#define REC_L1", "int rec1;", '#include "rec.h"', "int after1;", "#else", "#ifndef REC_L2", "#define REC_L2", "int rec2;",
@@ -95,10 +95,10 @@ def flags(root, slist, forced):
     return out
 
 
-def expected(root, slist, forced):
+def expected(root, slist, forced, tu="src/main.c"):
     i_dirs = [os.path.join(root, d) for k, d in slist if k == "I"]
     s_dirs = [os.path.join(root, d) for k, d in slist if k == "S"]
-    c = cpp.preprocess(os.path.join(root, "src/main.c"), i_dirs, s_dirs, forced=[os.path.join(root, "pre/pre.h")] if forced else [])
+    c = cpp.preprocess(os.path.join(root, tu), i_dirs, s_dirs, forced=[os.path.join(root, "pre/pre.h")] if forced else [])
     if any(e[0] == "missing-include" for e in c.events):
         return None
     rr = os.path.realpath(root)
@@ -116,7 +116,15 @@ def observe(root, slist, forced):
     env.capture.records.clear()
     try:
         dbs = {}
-        if len(slist) == 2:
+        if same_platform_companion(slist):
+            # an earlier command of the SAME platform compiles a twin of the translation unit with the list reversed
+            # (per-command state must not be per-platform state); the expectation is the union of both (judge)
+            dbq = os.path.join(root, "dbq.json")
+            with open(dbq, "w") as f:
+                json.dump([{"file": "src/aux.c", "directory": root, "arguments": ["/usr/bin/gcc"] + flags(root, slist[::-1], False) + ["-c", "src/aux.c"]},
+                           {"file": "src/main.c", "directory": root, "arguments": ["/usr/bin/gcc"] + flags(root, slist, forced) + ["-c", "src/main.c"]}], f)
+            dbp = dbq
+        elif len(slist) == 2:
             # companion platform analysed FIRST in the same run: the same translation unit with the search list
             # reversed.  The parse trees are shared between commands; what p resolves must not depend on it.
             dbq = os.path.join(root, "dbq.json")
@@ -132,6 +140,11 @@ def observe(root, slist, forced):
     return {rel: sorted(ln for ln, ps in lines.items() if "p" in ps) for rel, lines in att.items() if not rel.startswith("db")}
 
 
+def same_platform_companion(slist):
+    """half of the two-directory search lists (those starting with inc2) get the same-platform companion, the other half the other-platform one"""
+    return len(slist) == 2 and slist[0][1] == "inc2"
+
+
 def judge(root, case):
     placement, style, seq, slist, forced = case
     build(root, placement, style, seq)
@@ -139,6 +152,11 @@ def judge(root, case):
     if exp is None:
         return None
     attr, emitted = exp
+    if same_platform_companion(slist):
+        exp2 = expected(root, slist[::-1], False, tu="src/aux.c")
+        if exp2 is None:
+            return None
+        attr = {rel: sorted(set(attr.get(rel, [])) | set(exp2[0].get(rel, []))) for rel in set(attr) | set(exp2[0])}
     got = observe(root, slist, forced)
     if isinstance(got, tuple):
         return [("exception", attr, got[1])]
